@@ -30,8 +30,8 @@ LEVEL = {
  "C20": (E, "5/C20", "Generated call histories on real libtbb observed through global_control::active_value (also from inside the library call) and generated demo option sets observed through a guarded hook line.", "rapidcheck history testing + Hypothesis over demo options"),
 }
 NOTE = {
- "C01": "Trusted: union-find/GF(2) oracle in engine/oracle.hpp; Boost.Graph descriptor identity (property address). Sizes n<=14 quick, n<=40 thorough.",
- "C02": "Trusted: reference implementations in engine/oracle.hpp (cross-validated against each other on every run). Sizes n<=12 quick, n<=32 thorough.",
+ "C01": "Trusted: union-find/GF(2) oracle in engine/oracle.hpp; Boost.Graph descriptor identity (property address). Sizes n<=14 plus a phase with n<=40 (m<=110) in quick; n<=20 plus n<=80 (m<=220) in thorough.",
+ "C02": "Trusted: reference implementations in engine/oracle.hpp (cross-validated against each other on every run). Sizes n<=12 plus a phase with n<=36 (m<=100) in quick; n<=16 plus n<=48 (m<=140) in thorough.",
  "C03": "Trusted: engine/mocktbb implements oneTBB's documented semantics and is not more liberal than oneTBB; TSan's happens-before model. Real-libtbb runs are in C07/C08/C20.",
  "C04": "Trusted: OpenMPI/Boost.MPI; glibc malloc behaviour for the layout perturbation (diversity is measured and reported, not assumed). Built with UBSan only.",
  "C05": "Trusted: oracle code; guarded accessors only classify cases. n<=16 quick, n<=40 thorough.",
